@@ -557,7 +557,7 @@ def families(ctx: Ctx):
             if c14.has_refs(m):
                 named.append(m)
         yield 'named-groups', v11, named, ctx.pick(25, 40)
-        yield 'element-vs-choice', v11, [ech_base(rng, v11) for _ in range(ctx.pick(36, 300))], ctx.pick(14, 24)
+        yield 'element-vs-choice', v11, [ech_base(rng, v11) for _ in range(ctx.pick(60, 300))], ctx.pick(14, 24)
 
 
 def occurs_table(ctx: Ctx, drv: Optional[Driver]) -> None:
